@@ -9,6 +9,7 @@ from pv.canon import B, T, outcome, unB
 ID = "C09"
 COQ_REQUIRE = "C09.Run"
 SHARD = 60
+LEGACY_STRIP = False  # model parameter: True = code before fix e02f4b0 (name = line[:colon].strip())
 CASE_TIMEOUT = 120  # generous: the sandbox is shared and can be heavily loaded
 RULE = ("/proc/net/dev files printed by the kernel printer of coq/C09/Spec.v from 0..12 interfaces (names from a pool with ':' "
         "digits and punctuation plus random printable names, both the modern '%6s: %7llu' and the old '%6s:%8lu' format), "
@@ -414,9 +415,9 @@ def _sys_flat(case):
 def coq_term(case):
     k = case["kind"]
     if k == "net":
-        return "run_net %s %s" % (G.bo(case["sp"]), G.lst(["(mk_nic %s %s)" % (G.by(i["name"]), _zs(i["c"])) for i in case["ifs"]]))
+        return "run_net %s %s %s" % (G.bo(LEGACY_STRIP), G.bo(case["sp"]), G.lst(["(mk_nic %s %s)" % (G.by(i["name"]), _zs(i["c"])) for i in case["ifs"]]))
     if k == "netraw":
-        return "run_net_raw %s" % G.by(bytes.fromhex(case["content"]))
+        return "run_net_raw %s %s" % (G.bo(LEGACY_STRIP), G.by(bytes.fromhex(case["content"])))
     if k == "disk":
         return "run_disk %s %s" % (G.lst([_kdisk(d) for d in case["devs"]]), G.lst([G.by(o) for o in case["others"]]))
     if k == "diskraw":
@@ -471,9 +472,7 @@ def finding_key(case, coq):
     # known finding: a 15-field (Linux 2.4) diskstats line is read one column off
     if case["kind"] == "disk" and any(d["lay"] == "l24" for d in case["devs"]):
         return "diskstats-2.4-layout"
-    # finding: an interface name whose str begins or ends with a str blank (0x1c-0x1f, U+0085, U+2003 ...) is stripped
-    if case["kind"] == "net" and any(_edge_blank(i["name"]) for i in case["ifs"]):
-        return "netdev-name-edge-blank"
+    # (the class "interface name beginning/ending with a str blank" was a finding; fixed by e02f4b0, no longer exempt)
     return None
 
 
